@@ -559,6 +559,12 @@ func tparmMain(args []string) error {
 	}
 	r.reset()
 
+	// %i is an operation (each one adds one to the first two parameters), wherever it stands
+	for _, p := range []string{"%i%i%p1%d;%p2%d", "%i%p1%d%i%p2%d", "%p1%d%i%p1%d", "%i%i%i%p2%d", "\x1b[%i%p1%d;%p2%dH%i%p1%d", "%i%p3%d%p1%d"} {
+		r.call("gen", p, true, []tpVal{{n: 5}, {n: 9}, {n: 3}})
+	}
+	r.reset()
+
 	// strings through variables: whatever a string parameter looks like (digits, a sign, empty), a variable gives it
 	// back as the string it was - dynamic and static variables, then %s, a width, %l, and use as a number
 	for _, sp := range []string{"007", "+5", "-0", "00", "12", "", "0x10", " 7", "caf\u00e9", "9999999999"} {
